@@ -616,6 +616,12 @@ class _FoldConsts(ast.NodeTransformer):
                     and a.value.id == b.value.id and a.value.id.isupper() and a.attr.isupper() and b.attr.isupper()):
                 same = a.attr == b.attr
                 return ast.Constant(value=same if isinstance(node.ops[0], (ast.Eq, ast.Is)) else not same)
+        # two literals of any kind: `None == 0`, `'rows' == 'rows'`
+        if (len(node.ops) == 1 and isinstance(node.left, ast.Constant) and isinstance(node.comparators[0], ast.Constant)
+                and isinstance(node.ops[0], (ast.Eq, ast.NotEq, ast.Is, ast.IsNot)) and not (self._int(node.left) and self._int(node.comparators[0]))):
+            a, b = node.left.value, node.comparators[0].value
+            same = (a is b) if isinstance(node.ops[0], (ast.Is, ast.IsNot)) and (a is None or b is None) else (type(a) is type(b) and a == b)
+            return ast.Constant(value=same if isinstance(node.ops[0], (ast.Eq, ast.Is)) else not same)
         if len(node.ops) == 1 and self._int(node.left) and self._int(node.comparators[0]):
             a, b = node.left.value, node.comparators[0].value
             table = {ast.Eq: a == b, ast.NotEq: a != b, ast.Lt: a < b, ast.LtE: a <= b, ast.Gt: a > b, ast.GtE: a >= b}
@@ -705,15 +711,14 @@ class Expander(ast.NodeTransformer):
     def visit_Attribute(self, node: ast.Attribute):
         if self._is_self(node.value):
             m = self.repo.lookup(self.ctx, node.attr)
+            if m is None:
+                # a class-level literal constant (`_share_axis = 0` on the subclass): its value for THIS class
+                c = self.repo.const_lookup(self.ctx, node.attr)
+                if (isinstance(c, ast.Constant) or (isinstance(c, ast.UnaryOp) and isinstance(c.operand, ast.Constant))) and not self._instance_assigned(node.attr):
+                    return copy.deepcopy(c)
             if m is not None and m.kind in ("lazyproperty", "property") and not self.stop(m):
                 return self.expand_member(m)
-            # a PURE ALIAS (`_dimension` -> `return self._rows_dimension`) is transparent even where the rule keeps
-            # properties symbolic: the rule names the aliased member, not the alias
-            if m is not None and m.kind in ("lazyproperty", "property"):
-                tgt = self._pure_alias(m)
-                if tgt is not None and tgt != node.attr and (self.ctx.name, node.attr) not in self.stack:
-                    return self.visit(ast.Attribute(value=node.value, attr=tgt, ctx=ast.Load()))
-            return node
+            return node  # (pure aliases are reconciled with the specified names in Ctx.check_expr, which knows both sides)
         after = self._super_after(node.value)
         if after is not None:
             m = self.repo.lookup_after(self.ctx, after, node.attr)
@@ -734,8 +739,20 @@ class Expander(ast.NodeTransformer):
                     return self.expand_member(m, bind)
         return self.generic_visit(node)
 
+    def _instance_assigned(self, attr: str) -> bool:
+        """True when some method of the class (or a base) assigns `self.<attr>`: the class-level value is only a default"""
+        for c in self.ctx.mro:
+            for n in ast.walk(c.node):
+                if isinstance(n, (ast.Assign, ast.AnnAssign, ast.AugAssign)):
+                    targets = n.targets if isinstance(n, ast.Assign) else [n.target]
+                    for t in targets:
+                        for x in (t.elts if isinstance(t, (ast.Tuple, ast.List)) else [t]):
+                            if isinstance(x, ast.Attribute) and x.attr == attr and isinstance(x.value, ast.Name) and x.value.id == "self":
+                                return True
+        return False
+
     @staticmethod
-    def _pure_alias(m: Member) -> Optional[str]:
+    def _pure_alias(m) -> Optional[str]:
         """name X when the member's whole body is `return self.X` (docstring aside)"""
         body = [st for st in getattr(m.node, "body", []) if not (isinstance(st, ast.Expr) and isinstance(st.value, ast.Constant))]
         if len(body) == 1 and isinstance(body[0], ast.Return) and isinstance(body[0].value, ast.Attribute) and isinstance(body[0].value.value, ast.Name) and body[0].value.value.id == "self":
